@@ -56,6 +56,47 @@ static void ledger_add(void *p, size_t size, int kind)
     pthread_mutex_unlock(&ledger_mtx);
 }
 
+/* pages the library has write-protected (stack guards): a block handed back to free() must not contain one */
+#define GUARD_MAX 4096
+static struct { char *lo, *hi; } guards[GUARD_MAX];
+static int guards_n, guard_leaks;
+int __real_mprotect(void *a, size_t n, int prot);
+int __wrap_mprotect(void *a, size_t n, int prot)
+{
+    int rc = __real_mprotect(a, n, prot);
+    if (rc != 0)
+        return rc;
+    pthread_mutex_lock(&ledger_mtx);
+    if (!(prot & PROT_WRITE)) {
+        if (guards_n < GUARD_MAX) {
+            guards[guards_n].lo = (char *)a;
+            guards[guards_n].hi = (char *)a + n;
+            guards_n++;
+        }
+    } else {
+        for (int i = guards_n - 1; i >= 0; i--)
+            if (guards[i].lo >= (char *)a && guards[i].hi <= (char *)a + n)
+                guards[i] = guards[--guards_n];
+    }
+    pthread_mutex_unlock(&ledger_mtx);
+    return rc;
+}
+static void guard_check_release(char *p, size_t size, const char *how)
+{
+    for (int i = 0; i < guards_n; i++)
+        if (guards[i].lo < p + size && guards[i].hi > p) {
+            fprintf(stderr,
+                    "LEDGER-VIOLATION %s of a block of %zu bytes (block address %% page = %lu) while the page at offset %ld in it "
+                    "is still write-protected: the guard that was set at stack allocation was not removed\n",
+                    how, size, (unsigned long)((uintptr_t)p % 4096), (long)(guards[i].lo - p));
+            ledger_violations++;
+            guard_leaks++;
+            __real_mprotect(guards[i].lo, (size_t)(guards[i].hi - guards[i].lo), PROT_READ | PROT_WRITE);
+            guards[i] = guards[--guards_n];
+            i--;
+        }
+}
+
 /* returns 1 if p was a live allocation of that kind (and removes it) */
 static int ledger_del(void *p, int kind, size_t munmap_size)
 {
@@ -72,6 +113,8 @@ static int ledger_del(void *p, int kind, size_t munmap_size)
                         ledger[i].size);
                 ledger_violations++;
             }
+            if (kind == 0)
+                guard_check_release((char *)p, ledger[i].size, "free");
             ledger[i] = ledger[ledger_n - 1];
             ledger_n--;
             ok = 1;
@@ -269,6 +312,13 @@ static void do_unit(const char *kind, size_t S, long off8, const char *who)
         }
     }
     int rc;
+    {
+        /* move the heap around a little (kept, outside the ledger): stacks allocated by malloc then start at every
+         * 64-byte position of a page over a run, also exactly on a page boundary */
+        static unsigned long shiftseq;
+        shiftseq = shiftseq * 6364136223846793005UL + S + 1442695040888963407UL;
+        (void)__real_malloc(16 + (shiftseq >> 33) % 4000);
+    }
     if (creator_ext) {
         ext_job j = { 0, attr, &barg, ABT_THREAD_NULL, 0 };
         /* the body needs lo/hi before it runs: it runs only when main yields/joins, fill them below */
@@ -414,7 +464,10 @@ int main(void)
                 ledger_violations++;
             }
             pthread_mutex_unlock(&ledger_mtx);
-            printf("fin live=%d\n", live);
+            if (guard_leaks)
+                printf("fin live=%d guardleaks=%d\n", live, guard_leaks);
+            else
+                printf("fin live=%d\n", live);
         } else if (line[0] != '\n') {
             printf("bad-op\n");
         }
